@@ -72,6 +72,8 @@ class Run:
         self.interposer = interposer
         self.invocations = []    # (build_no, kind, f, path/args) log (C05/C06/C08)
         self.universe = [list(p) for p in scenario.get('universe', [])]
+        self.handoff = None
+        self.stale_builders = []   # (kind, builder) of activations that have ended (C17)
         self.sinks = {}          # thread ident -> per-thread event list (inside a `par` statement)
         self.gseq = 0
         self.par_info = []
@@ -182,7 +184,13 @@ class Run:
             e['res'] = {'ok': True, 'v': v}
         except Exception as x:      # OSError subclasses, RuntimeError (fenced) ...
             e['res'] = {'ok': False, 'err': x.__class__.__name__}
-        self.events.append(e)
+        sink = self.sinks.get(threading.get_ident())
+        if sink is not None:
+            self.gseq += 1
+            e['_g'] = self.gseq
+            sink.append(e)
+        else:
+            self.events.append(e)
         return e['res']
 
     def _cid(self, data):
@@ -272,6 +280,43 @@ class Run:
 
     def run_frame(self, builder, fr):
         """Interpret one function activation.  Returns the function's value."""
+        try:
+            return self._run_frame(builder, fr)
+        finally:
+            if self.sc.get('stale'):
+                self.stale_builders.append((fr.kind, builder))
+
+    STALE_METHODS = ('exists', 'is_file', 'is_dir', 'list_dir', 'walk', 'get_size', 'declare_read', 'read_text',
+                     'read_binary', 'build_file', 'subbuild', 'build_file_with_comparison')
+
+    def stale_call(self, kind, builder, method, target):
+        """Call a method on a builder whose function has already ended (C17)."""
+        fn = self.sb.path(target)
+        called = {'n': 0}
+
+        def f(b, *a, **k):
+            called['n'] += 1
+            if a and isinstance(a[0], str) and os.path.isabs(a[0]):
+                with open(a[0], 'w') as fh:
+                    fh.write('stale')
+            return 'stale'
+        try:
+            if method in ('exists', 'is_file', 'is_dir', 'list_dir', 'walk', 'get_size', 'declare_read'):
+                getattr(builder, method)(fn)
+            elif method in ('read_text', 'read_binary'):
+                getattr(builder, method)(fn).close()
+            elif method == 'build_file':
+                builder.build_file(fn, 'fstale', f, 1)
+            elif method == 'build_file_with_comparison':
+                builder.build_file_with_comparison(fn, FileComparison.HASH, 'fstale', f, 1)
+            else:
+                builder.subbuild('fstale', f, 1)
+            res = {'ok': True, 'err': ''}
+        except Exception as x:
+            res = {'ok': False, 'err': x.__class__.__name__}
+        self.ev(ev='stale', which=kind, method=method, p=target, res=res, called=called['n'])
+
+    def _run_frame(self, builder, fr):
         while True:
             st = self.next_stmt(fr)
             fr.n += 1
@@ -317,6 +362,19 @@ class Run:
                 x = self.new_exc()
                 self.ev(ev='fn_end', out='raise', v={'k': 'none'}, x=x.n, prop=False, err='UserError')
                 raise x
+            elif s == 'handoff':
+                self.handoff = builder
+                from .sched import CoopLock as _CL
+                if _CL.current_sched is not None and _CL.current_sched.me() is not None:
+                    # preemption points of the owner are counted from the hand-off on
+                    _CL.current_sched.yields[_CL.current_sched.me()] = 0
+                fr.obs.append(['handoff'])
+            elif s == 'stale':
+                # call methods on builders of activations that have already ended
+                for kind, b in list(self.stale_builders)[-st.get('last', 3):]:
+                    for m in st.get('methods', self.STALE_METHODS):
+                        self.stale_call(kind, b, m, st.get('p', ['sx']))
+                fr.obs.append(['stale'])
             elif s == 'par':
                 self.run_par(builder, fr, st)
                 fr.obs.append(['par', len(st['branches'])])
@@ -325,6 +383,98 @@ class Run:
                 st['fn'](self, builder, fr)
             else:
                 raise ValueError(st)
+
+    def build_with_straggler(self, step, the_build, root):
+        """C17: the build runs in cooperative thread 0; thread 1 (the straggler) receives the root builder
+        from the root function (statement `handoff`) and keeps calling its methods while the root function
+        returns and the build commits.  Calls that completed normally are placed before the end of the root
+        function in the merged trace (they must be part of the record), fenced calls (RuntimeError: already
+        finished) become `stale` events; anything else makes the execution unjudgeable."""
+        from .sched import Sched, CoopLock
+        spec = step['straggler']
+        sched = Sched(preempt=spec.get('preempt', ()))
+        own, before, after = [], [], []
+        res = {}
+        me = self
+
+        def owner():
+            me.sinks[threading.get_ident()] = own
+            try:
+                res['out'] = the_build()
+            finally:
+                me.sinks.pop(threading.get_ident(), None)
+
+        def straggler():
+            tmp = []
+            me.sinks[threading.get_ident()] = tmp
+            try:
+                spins = 0
+                while me.handoff is None and spins < 10000:
+                    spins += 1
+                    sched.pass_turn()
+                    if sched.state[0] == 'done':
+                        break
+                b = me.handoff
+                if b is None:
+                    return
+                for st in spec['ops']:
+                    del tmp[:]
+                    fenced = False
+                    try:
+                        if st['s'] == 'q':
+                            me.query(b, root, st)
+                            r = tmp[-1]['res'] if tmp else {'ok': True}
+                            fenced = (not r['ok']) and r.get('err') == 'RuntimeError'
+                        else:
+                            sub = dict(st)
+                            sub['catch'] = True
+                            me.call_complex(b, root, sub)
+                            last = tmp[-1] if tmp else {}
+                            fenced = (last.get('out') == 'raised' and last.get('err') == 'RuntimeError'
+                                      and not last.get('inv'))
+                            if last.get('out') == 'raised' and last.get('err') == 'RuntimeError' and last.get('inv'):
+                                res['unjudged'] = True       # fenced at the very end of a call that had started
+                    except Exception as x:      # noqa
+                        res['unjudged'] = True
+                    if fenced:
+                        after.append({'ev': 'stale', 'which': 'root', 'method': st.get('kind', st['s']),
+                                      'p': st.get('p', []), 'res': {'ok': False, 'err': 'RuntimeError'},
+                                      'called': 0})
+                    else:
+                        before.extend(dict(e) for e in tmp)
+            finally:
+                me.sinks.pop(threading.get_ident(), None)
+        old_hook = self.interposer.yield_hook if self.interposer else None
+        if self.interposer:
+            self.interposer.yield_hook = sched.yield_point
+        CoopLock.current_sched = sched
+        try:
+            errors = sched.run([owner, straggler])
+        finally:
+            CoopLock.current_sched = None
+            if self.interposer:
+                self.interposer.yield_hook = old_hook
+        # merge: successful straggler operations just before the end of the root function
+        cut = None
+        for i in range(len(own) - 1, -1, -1):
+            if own[i]['ev'] == 'fn_end':
+                cut = i
+                break
+        merged = own if cut is None else own[:cut] + before + [own[cut]] + after + own[cut + 1:]
+        if cut is None and (before or after):
+            res['unjudged'] = True
+        for e in merged:
+            e.pop('_g', None)
+            self.events.append(e)
+        self.par_info.append({'yields': list(sched.yields), 'switches': sched.switches, 'deadlock': sched.deadlock,
+                              'errors': [repr(x) for x in errors if x is not None],
+                              'straggler': {'before': len(before), 'fenced': len(after)}})
+        if sched.deadlock or any(x is not None for x in errors):
+            self.ev(ev='par_fail', deadlock=sched.deadlock, errors=[repr(x)[:200] for x in errors if x is not None])
+        if res.get('unjudged'):
+            self.unjudged = True
+        self.handoff = None
+        return res.get('out') or {'out': 'raised', 'v': {'k': 'none'}, 'err': 'HarnessNoResult', 'same': False}
 
     def run_par(self, builder, fr, st):
         """Run the branches (one build_file / subbuild call each) in cooperative threads under
@@ -418,13 +568,18 @@ class Run:
             a_cache = 12345
         elif bad == 'name_none':
             a_name = None
-        try:
+        def the_build():
             try:
                 v = FileBuilder.build_versioned(a_cache, a_name, a_vers, a_func)
-                out = {'out': 'returned', 'v': terms.to_term(v), 'err': '', 'same': False}
+                return {'out': 'returned', 'v': terms.to_term(v), 'err': '', 'same': False}
             except Exception as x:
-                out = {'out': 'raised', 'v': {'k': 'none'}, 'err': x.__class__.__name__,
-                       'same': state['exc'] is not None and x is state['exc']}
+                return {'out': 'raised', 'v': {'k': 'none'}, 'err': x.__class__.__name__,
+                        'same': state['exc'] is not None and x is state['exc']}
+        try:
+            if step.get('straggler'):
+                out = self.build_with_straggler(step, the_build, root)
+            else:
+                out = the_build()
         finally:
             if old_tmp is None:
                 os.environ.pop('TMPDIR', None)
@@ -439,6 +594,15 @@ class Run:
         disk2 = sb.snapshot()
         self.ev(ev='build_end', inv=state['invoked'], disk=disk2, cser=self._cser(disk2),
                 tmp=sb.tmp_entries() == [], **out)
+        if step.get('stale_after') and self.stale_builders:
+            import random as _r
+            rr = _r.Random(step['stale_after'])
+            for kind, b in self.stale_builders[-4:]:
+                for m in rr.sample(self.STALE_METHODS, 5):
+                    self.stale_call(kind, b, m, rr.choice([['sx'], ['d', 'sy'], ['x']]))
+            disk3 = sb.snapshot()
+            self.ev(ev='idle_check', disk=disk3, cser=self._cser(disk3))
+        self.stale_builders = []
         self.cur = None
 
     def _cser(self, disk):
@@ -506,6 +670,8 @@ class Run:
             out['fault_fired'] = self.interposer.fault_fired
         if self.par_info:
             out['par'] = self.par_info
+        if getattr(self, 'unjudged', False):
+            out['unjudged'] = True
         return out
 
 
